@@ -8,6 +8,9 @@ pub struct Guarded {
     map_len: usize,
     ptr: *const f32,
     len: usize,
+    /// small slices: a block from the guard-page allocator's slot pool (same
+    /// placement, no system call)
+    pooled: Option<Vec<f32>>,
 }
 
 unsafe impl Send for Guarded {}
@@ -19,6 +22,18 @@ impl Guarded {
     /// `at_end`: the slice ends exactly at the guard page; otherwise it starts
     /// right after one
     pub fn new(data: &[f32], at_end: bool) -> Guarded {
+        if !data.is_empty() && data.len() * 4 <= PAGE {
+            let v = crate::galloc::with_guard(at_end, || data.to_vec());
+            if crate::galloc::is_guarded(v.as_ptr() as *const u8) && v.capacity() == data.len() {
+                return Guarded {
+                    base: std::ptr::null_mut(),
+                    map_len: 0,
+                    ptr: v.as_ptr(),
+                    len: v.len(),
+                    pooled: Some(v),
+                };
+            }
+        }
         let bytes = data.len() * 4;
         let data_pages = bytes.div_ceil(PAGE).max(1);
         let map_len = (data_pages + 2) * PAGE;
@@ -50,6 +65,7 @@ impl Guarded {
                 map_len,
                 ptr: start as *const f32,
                 len: data.len(),
+                pooled: None,
             }
         }
     }
@@ -64,8 +80,10 @@ impl Deref for Guarded {
 
 impl Drop for Guarded {
     fn drop(&mut self) {
-        unsafe {
-            libc::munmap(self.base as *mut _, self.map_len);
+        if self.pooled.is_none() {
+            unsafe {
+                libc::munmap(self.base as *mut _, self.map_len);
+            }
         }
     }
 }
